@@ -1141,3 +1141,80 @@ def nul2_bitmap_ones_fill_whole_bytes_only(ctx):
                                                                  else 'a count that is not bits / 8 rounded down'),
                       where(t))
     ctx.require(n >= 1, 'NUL-2: no all-ones fill of a bitmap in column_buffer (anchor)')
+
+
+# ------------------------------------------------------------------------------------ NUL-5
+BYTE_LEVEL = ('extend', 'extend_from_slice', 'push', 'append', 'truncate', 'insert', 'splice', 'copy_from_slice',
+              'index_mut', 'set_len', 'drain', 'clear')
+
+
+def nul5_builder_bitmap_written_bitwise(ctx):
+    """The null bitmap of the column builder is *positionally sparse*: `BitVecMut::set` grows it on
+    demand and `is_set` reads a missing byte as "all NULL", so after trailing NULL rows (or a chunk
+    without the column) the vector is shorter than `length / 8`.  A byte-level write (`extend`,
+    `push`, `truncate` + append, ...) places the new bytes at the vector's end, not at the row
+    position, and shifts every later null bit by a multiple of eight rows.  After its creation the
+    bitmap may therefore be written through the bit API only - unless the byte-level write is
+    dominated by a `resize` of the same vector (which pads as well as cuts)."""
+    ctx.rule('NUL-5', 'the null bitmap of the column builder is written through BitVecMut::set/unset only '
+                      '(it can be shorter than length / 8, so byte-level appends land on the wrong rows)',
+             floor=4)
+    P = ctx.P
+    n_bit = 0
+    for b in P.fn_bodies():
+        if b.crate != 'locustdb' or not b.name.startswith('mem_store::column_buffer::ColumnBuffer::'):
+            continue
+        b.parse()
+        du = DefUse(b)
+        cfg = CFG(b)
+        st = ctx.ast.struct('ColumnBuffer', 'mem_store/column_buffer.rs')
+        fidx = [f['name'] for f in st['fields']].index('present')
+
+        # locals that end up in the field (a bitmap built in a local and stored with `self.present = Some(..)`)
+        feeds = set()
+        for bid2, blk2 in b.blocks.items():
+            for s2 in blk2.stmts:
+                if s2.kind == 'assign' and re.match(r'^\(\(\*_1\)\.%d: ' % fidx, s2.lhs.strip()):
+                    for l2 in set(re.findall(r'_(\d+)', s2.rhs or '')):
+                        feeds |= du.origins(int(l2))['locals']
+
+        def on_present(arg):
+            l = base_local(arg)
+            if l is None:
+                return False
+            org = du.origins(l)
+            txt = ' '.join((s.rhs or '') for (_b, s) in org['stmts'])
+            if re.search(r'\(\(\*_1\)\.%d: ' % fidx, txt) or re.search(r'\(_1\.%d: ' % fidx, txt):
+                return True
+            return bool(org['locals'] & feeds) and 'Vec<u8>' in ' '.join((b.local_type(x) or '') for x in org['locals'])
+        resizes = []
+        writes = []
+        for blk, t in b.calls():
+            if blk.cleanup or not t.args:
+                continue
+            c = norm_callee(t.func or '')
+            m = c.split('::')[-1]
+            if c.endswith('BitVecMut>::set') or c.endswith('BitVecMut>::unset'):
+                if on_present(t.args[0]):
+                    n_bit += 1
+                    ctx.ok('NUL-5', '%s|bit-write' % b.name.split('::')[-1],
+                           'bitmap written through %s' % c.split('::')[-1], where(t))
+                continue
+            if 'Vec' not in c and 'slice' not in c and '[u8]' not in c:
+                continue
+            if not on_present(t.args[0]):
+                continue
+            if m == 'resize':
+                resizes.append(blk.id)
+            elif m in BYTE_LEVEL:
+                writes.append((blk, t, m))
+        short = b.name.split('::')[-1]
+        for (blk, t, m) in writes:
+            ok = any(cfg.dominates(r, blk.id) and r != blk.id for r in resizes)
+            ctx.check('NUL-5', '%s|byte-level-%s' % (short, m), ok,
+                      'byte-level write `%s` on the builder\'s null bitmap %s' % (m,
+                          'after a resize of the same vector' if ok else
+                          'without a preceding resize: the bitmap may be shorter than length / 8 (trailing '
+                          'NULL rows, a chunk without the column), so the bytes land 8*k rows too early'), where(t))
+    ctx.check('NUL-5', 'bit-api-writes', n_bit >= 4,
+              '%d writes of the builder\'s bitmap go through BitVecMut::set / unset' % n_bit, 'src/mem_store/column_buffer.rs')
